@@ -560,11 +560,26 @@ func runB3(p *an.Prog, r *an.Result) {
 	}
 	// Not's closure: value == nil || value == false
 	notFn := p.Func("expressions.Not")
-	if notFn == nil || len(notFn.AnonFuncs) != 1 {
+	// the evaluation function that Not wraps: its closure, or a method value of a small type
+	var notEval *ssa.Function
+	if notFn != nil {
+		if len(notFn.AnonFuncs) == 1 {
+			notEval = notFn.AnonFuncs[0]
+		} else {
+			an.EachInstr(notFn, func(in ssa.Instruction) {
+				if mc, ok := in.(*ssa.MakeClosure); ok {
+					if f := unwrapBound(mc.Fn.(*ssa.Function)); f != nil && f.Blocks != nil {
+						notEval = f
+					}
+				}
+			})
+		}
+	}
+	if notEval == nil {
 		r.Bad("expressions.Not", "closure not found", token.NoPos, "expressions.Not was not resolved")
 		return
 	}
-	if ok, why := isFalsinessTest(notFn.AnonFuncs[0]); ok {
+	if ok, why := isFalsinessTest(notEval); ok {
 		r.OK("expressions.Not", "returns value == nil || value == false", an.FuncPos(notFn), why)
 	} else {
 		r.Bad("expressions.Not", "negation is not the canonical falsiness", an.FuncPos(notFn), why)
@@ -1035,7 +1050,18 @@ func runB7(p *an.Prog, r *an.Result) {
 		val := an.Strip(s.Call.Args[1])
 		par, ok := val.(*ssa.Parameter)
 		if !ok {
+			// a local of the loop function captured by the deferred closure: what was stored into it,
+			// before the defer was registered
 			restores[k] = "?not a saved value"
+			for _, o := range originsThroughCaptures(p, s.Call.Args[1]) {
+				if c := an.CallOf(an.Strip(o)); c != nil && an.CallName(c) == "(render.Context).Get" {
+					if gi, isInstr := an.Strip(o).(ssa.Instruction); isInstr && instrDominates(gi, def) {
+						restores[k] = keyDesc(p, c.Args[0])
+					} else {
+						restores[k] = "?read after the defer"
+					}
+				}
+			}
 			continue
 		}
 		idx := -1
@@ -1094,10 +1120,15 @@ func runB8(p *an.Prog, r *an.Result) {
 		fn := b.Renderer
 		name := roles.Label(fn)
 		used := false
-		if refs := fn.Params[0].Referrers(); refs != nil {
-			for _, u := range *refs {
-				if _, dbg := u.(*ssa.DebugRef); !dbg {
-					used = true
+		for _, wp := range fn.Params {
+			if !isIOWriter(wp.Type()) {
+				continue
+			}
+			if refs := wp.Referrers(); refs != nil {
+				for _, u := range *refs {
+					if _, dbg := u.(*ssa.DebugRef); !dbg {
+						used = true
+					}
 				}
 			}
 		}
@@ -1180,10 +1211,15 @@ func runB8(p *an.Prog, r *an.Result) {
 				r.Bad(name, "assign binding", s.Pos(), fmt.Sprintf("assign must bind the evaluated Assignment.ValueFn (ok: %v) under Assignment.Variable (ok: %v)", okVal, okKey))
 			}
 		}
-		if refs := fn.Params[0].Referrers(); refs != nil {
-			for _, u := range *refs {
-				if _, dbg := u.(*ssa.DebugRef); !dbg {
-					r.Bad(name, "assign uses the output writer", an.FuncPos(fn), "assign must not produce output")
+		for _, wp := range fn.Params {
+			if !isIOWriter(wp.Type()) {
+				continue
+			}
+			if refs := wp.Referrers(); refs != nil {
+				for _, u := range *refs {
+					if _, dbg := u.(*ssa.DebugRef); !dbg {
+						r.Bad(name, "assign uses the output writer", an.FuncPos(fn), "assign must not produce output")
+					}
 				}
 			}
 		}
@@ -1637,24 +1673,68 @@ func runB10(p *an.Prog, r *an.Result) {
 	records := map[*ssa.MakeMap]bool{}
 	fields := map[string]ssa.Value{}
 	pos := map[string]token.Pos{}
-	an.EachInstr(fn, func(in ssa.Instruction) {
-		mu, ok := in.(*ssa.MapUpdate)
-		if !ok {
-			return
+	// the record may be built by a helper that is handed i and l: its parameters stand for the arguments
+	subst := map[ssa.Value]ssa.Value{}
+	recordAt := map[*ssa.MakeMap]*ssa.BasicBlock{} // where, in fn, the record comes into being
+	for _, f := range unitWithHelpers(p, fn) {
+		if f.Parent() != nil && f != fn {
+			continue
 		}
-		if _, isMake := mu.Map.(*ssa.MakeMap); !isMake {
-			return
+		var site *ssa.Call
+		if f != fn {
+			cs := callSitesOf(p, f)
+			if len(cs) != 1 || cs[0].Parent() != fn {
+				continue
+			}
+			site = cs[0]
+			for k, fp := range f.Params {
+				if k < len(site.Call.Args) {
+					subst[fp] = site.Call.Args[k]
+				}
+			}
 		}
-		if k, ok := an.ConstString(mu.Key); ok {
-			fields[k] = an.Strip(mu.Value)
-			pos[k] = mu.Pos()
-			records[mu.Map.(*ssa.MakeMap)] = true
+		an.EachInstr(f, func(in ssa.Instruction) {
+			mu, ok := in.(*ssa.MapUpdate)
+			if !ok {
+				return
+			}
+			mm, isMake := mu.Map.(*ssa.MakeMap)
+			if !isMake {
+				return
+			}
+			if k, ok := an.ConstString(mu.Key); ok {
+				fields[k] = an.Strip(mu.Value)
+				pos[k] = mu.Pos()
+				records[mm] = true
+				if site != nil {
+					recordAt[mm] = site.Block()
+				} else {
+					recordAt[mm] = mm.Block()
+				}
+			}
+		})
+	}
+	// linear forms with the helper's parameters replaced by what it was handed
+	lin := func(v ssa.Value) linForm {
+		lf := linOf(v, 0)
+		out := linForm{coef: map[ssa.Value]int64{}, c: lf.c}
+		for x, cf := range lf.coef {
+			if y, ok := subst[x]; ok {
+				sub := linOf(y, 0)
+				out.c += cf * sub.c
+				for z, cz := range sub.coef {
+					out.coef[z] += cf * cz
+				}
+			} else {
+				out.coef[x] += cf
+			}
 		}
-	})
+		return out
+	}
 	// the record is a new map in every iteration: a template can keep it (assign f = forloop) and must
 	// find the values of the iteration in which it took it
 	for mm := range records {
-		if ib, ok := ssa.Value(i).(*ssa.Phi); ok && ib.Block().Dominates(mm.Block()) && mm.Block() != ib.Block() {
+		if ib, ok := ssa.Value(i).(*ssa.Phi); ok && recordAt[mm] != nil && ib.Block().Dominates(recordAt[mm]) && recordAt[mm] != ib.Block() {
 			r.OK(name, "the forloop record is allocated inside the loop", mm.Pos(), "one map per iteration")
 		} else {
 			r.Bad(name, "the forloop record is shared by all iterations", mm.Pos(), "the loop record is allocated once and overwritten: a value that holds the record (assign f = forloop) changes under the template's feet")
@@ -1684,7 +1764,7 @@ func runB10(p *an.Prog, r *an.Result) {
 			r.Bad(name, "forloop."+k+" missing", an.FuncPos(fn), "the loop record lacks this field")
 			continue
 		}
-		if linOf(v, 0).is(ints[k].c, ints[k].want) {
+		if lin(v).is(ints[k].c, ints[k].want) {
 			r.OK(name, "forloop."+k+" = "+ints[k].text, pos[k], "linear normal form over the counter i and l = iter.Len()")
 		} else {
 			r.Bad(name, "forloop."+k+" is not "+ints[k].text, pos[k], fmt.Sprintf("forloop.%s must equal %s in iteration i of l", k, ints[k].text))
@@ -1708,7 +1788,7 @@ func runB10(p *an.Prog, r *an.Result) {
 		b, isBin := v.(*ssa.BinOp)
 		good := false
 		if isBin && b.Op == token.EQL {
-			d := linOf(b.X, 0).minus(linOf(b.Y, 0))
+			d := lin(b.X).minus(lin(b.Y))
 			neg := map[ssa.Value]int64{}
 			for a, c := range bools[k].want {
 				neg[a] = -c
@@ -2190,6 +2270,12 @@ func originsThroughCaptures(p *an.Prog, v ssa.Value) []ssa.Value {
 					fv = f
 				}
 			}
+			// a field of the receiver of a method that is used as a method value: what the
+			// construction site put into that field
+			for _, bv := range boundReceiverField(p, o) {
+				out = append(out, bv)
+				visit(bv, depth+1)
+			}
 			if fv == nil || fv.Parent() == nil || fv.Parent().Parent() == nil {
 				continue
 			}
@@ -2209,5 +2295,59 @@ func originsThroughCaptures(p *an.Prog, v ssa.Value) []ssa.Value {
 		}
 	}
 	visit(v, 0)
+	return out
+}
+
+// boundReceiverField: o reads field k of the receiver of method m; for every place that makes the
+// method value x.m, the value stored into field k of x.
+func boundReceiverField(p *an.Prog, o ssa.Value) []ssa.Value {
+	var recv ssa.Value
+	field := -1
+	switch x := o.(type) {
+	case *ssa.Field:
+		recv, field = x.X, x.Field
+	case *ssa.UnOp:
+		if fa, ok := x.X.(*ssa.FieldAddr); ok && x.Op == token.MUL {
+			recv, field = fa.X, fa.Field
+		}
+	}
+	if recv == nil {
+		return nil
+	}
+	m := recv.Parent()
+	if m == nil || m.Signature.Recv() == nil || len(m.Params) == 0 {
+		return nil
+	}
+	if an.Deref(recv) != ssa.Value(m.Params[0]) && recv != ssa.Value(m.Params[0]) {
+		// value receivers are spilled: *t0 = recv
+		if al, ok := recv.(*ssa.Alloc); !ok || len(an.Stores(al)) != 1 || an.Stores(al)[0] != ssa.Value(m.Params[0]) {
+			return nil
+		}
+	}
+	var out []ssa.Value
+	for _, f := range p.Funcs {
+		an.EachInstr(f, func(in ssa.Instruction) {
+			mc, ok := in.(*ssa.MakeClosure)
+			if !ok || len(mc.Bindings) == 0 || unwrapBound(mc.Fn.(*ssa.Function)) != m || mc.Fn.(*ssa.Function) == m {
+				return
+			}
+			b := mc.Bindings[0]
+			// the receiver value: a composite literal (load of a local) or a pointer to one
+			var lit *ssa.Alloc
+			if u, ok := b.(*ssa.UnOp); ok && u.Op == token.MUL {
+				lit, _ = u.X.(*ssa.Alloc)
+			} else if al, ok := b.(*ssa.Alloc); ok {
+				lit = al
+			}
+			if lit == nil || lit.Referrers() == nil {
+				return
+			}
+			for _, u := range *lit.Referrers() {
+				if fa, ok := u.(*ssa.FieldAddr); ok && fa.Field == field {
+					out = append(out, an.Stores(fa)...)
+				}
+			}
+		})
+	}
 	return out
 }
